@@ -49,6 +49,23 @@ KNOWN_D54 = 'D54-http10-absolute-form-keeps-target-authority'
 KNOWN_D1 = 'D1-redirect-low-octet'
 
 CFGS = [('http', 'localhost', 8090), ('https', 'example.org', 443), ('https', 'srv', None), ('http', 'badport', 70000)]
+# configurations of sections R-W only (index 4...): the constructor arguments as another caller would pass them (class 13: ports that are the OTHER scheme's default, the
+# extremes, a default host in upper case / beyond ASCII / an address; class 11: bytes and digit-string arguments).  CFGS itself is left alone: section D enumerates it
+CFGS_X = [('https', 'h', 80), ('http', 'h', 443), ('http', 'LOCALHOST', 65535), ('https', 'example.org', 1), ('http', 'b\u00fccher.example', None), ('https', 'b\u00fccher.example', 8443),
+	('http', '::1', 8080), ('https', '1.2.3.4', None), ('http', 'h', 80), ('https', 'h', 443),
+	(b'https', b'example.org', 443), (b'http', 'localhost', '8090'), ('https', b'srv', b'81')]
+ALL_CFGS = CFGS + CFGS_X
+
+
+def _cfg_text(i):
+	"""configuration i as the text / number it means, whatever type the constructor argument has"""
+	sc, h, p = ALL_CFGS[i]
+	sc = sc if isinstance(sc, str) else bytes(sc).decode('ascii')
+	h = h if isinstance(h, str) else bytes(h).decode('utf-8')
+	p = None if p is None else int(p)
+	return sc, h, p
+
+
 TOKENS = [b'/', b'.', b'..', b'%2e', b'%2E', b'%2f', b'%252e', b'\\', b'a', b';x', b'*', b'%c0%ae']
 
 
@@ -148,19 +165,20 @@ def _install():
 
 	class Machine(ServerStateMachine):
 		def on_message_started(self):
-			REC.msgs.append({'start_ok': False, 'reached': False, 'hostraw': None})
+			self._c06_rec = {'start_ok': False, 'reached': False, 'hostraw': None, 'sm': id(self)}   # the record of THIS machine's current message
+			REC.msgs.append(self._c06_rec)
 			return super(Machine, self).on_message_started()
 
 		def on_startline_complete(self):
 			super(Machine, self).on_startline_complete()
 			REC.start_ok = True
-			REC.msgs[-1]['start_ok'] = True
+			self._c06_rec['start_ok'] = True
 
 		def on_headers_complete(self):
 			REC.hostraw = self.message.headers.getbytes('Host')
 			REC.reached = True
-			REC.msgs[-1]['reached'] = True
-			REC.msgs[-1]['hostraw'] = REC.hostraw
+			self._c06_rec['reached'] = True
+			self._c06_rec['hostraw'] = REC.hostraw
 			super(Machine, self).on_headers_complete()
 
 	_M = (Machine, Host)
@@ -246,6 +264,9 @@ def _pieces(data, cuts):
 		return [data[i:i + 1] for i in range(len(data))]
 	if not cuts:
 		return [data]
+	if isinstance(cuts, dict):   # blocks of exactly cuts['block'] octets, as a reader with a fixed buffer hands them on
+		n = cuts['block']
+		return [data[i:i + n] for i in range(0, len(data), n)]
 	out, prev = [], 0
 	for k in cuts:
 		out.append(data[prev:k])
@@ -277,12 +298,45 @@ def _sig(o):
 	return [o.get('out'), o.get('code'), o.get('loc'), o.get('uri'), o.get('eport'), o.get('cport'), o.get('method'), o.get('ver'), o.get('exc'), o.get('n')]
 
 
+class _Knob(object):
+	"""a configuration knob of the library set the way an application sets it -- by assignment on the class -- for the time of one case: {'enc': codec, 'on': [class names]}
+	assigns URI.encoding (the charset percent-encoded octets are read and written in); {'maxuri': n} is an attribute of the machine and is set in _run_head"""
+	def __init__(self, knob):
+		self.knob = knob or {}
+		self.saved = []
+
+	def __enter__(self):
+		if 'enc' in self.knob:
+			import httoop.uri as hu
+			import httoop.uri.uri as um
+			for name in self.knob.get('on', ['URI']):
+				cls = um.URI if name == 'URI' else getattr(hu, name)
+				self.saved.append((cls, cls.__dict__.get('encoding', self)))
+				cls.encoding = self.knob['enc']
+		return self
+
+	def __exit__(self, *a):
+		for cls, old in reversed(self.saved):
+			if old is self:
+				del cls.encoding
+			else:
+				cls.encoding = old
+		self.saved = []
+
+
 def _run_head(c):
-	"""one request head through a fresh machine, in one piece or cut as c['cuts'] says"""
+	"""one request head through a fresh machine, in one piece or cut as c['cuts'] says (under the knob of the case, if any)"""
+	with _Knob(c.get('knob')):
+		return _run_head_1(c)
+
+
+def _run_head_1(c):
 	from httoop.status import StatusException
 	Machine, Host = _install()
 	REC.reset()
-	sm = Machine(*CFGS[c['cfg']])
+	sm = Machine(*ALL_CFGS[c['cfg']])
+	if 'maxuri' in (c.get('knob') or {}):
+		sm.MAX_URI_LENGTH = c['knob']['maxuri']
 	try:
 		msgs = []
 		for piece in _pieces(wire_bytes(c), c.get('cuts')):
@@ -306,7 +360,10 @@ def _run_head(c):
 
 
 def _canonical_case(c):
-	return {'k': 'head', 'line': c['line'], 'hosts': c['hosts'], 'cfg': c['cfg']}
+	d = {'k': 'head', 'line': c['line'], 'hosts': c['hosts'], 'cfg': c['cfg']}
+	if 'knob' in c:
+		d['knob'] = c['knob']
+	return d
 
 
 def _run_seq(c):
@@ -315,7 +372,7 @@ def _run_seq(c):
 	from httoop.status import StatusException
 	Machine, Host = _install()
 	REC.reset()
-	sm = Machine(*CFGS[c['cfg']])
+	sm = Machine(*ALL_CFGS[c['cfg']])
 	delivered, last = [], None
 	for piece in c['pieces']:
 		try:
@@ -355,6 +412,175 @@ def _run_seq(c):
 	return {'out': 'seq', 'elems': elems, 'fresh': fresh, 'tables': tables}
 
 
+# ---------------------------------------------------------------- kind 'use': what callers do around parse() (sections R...; classes 10-12 of DESIGN section 8)
+FEEDS = ['bytes', 'bytearray', 'memoryview', 'recvbuf', 'list', 'tuple', 'iter', 'gen', 'map', 'chain']
+GARBAGE = ['str', 'none', 'int', 'float', 'object', 'list-str', 'list-300', 'iter-neg', 'gen-raise', 'dict']
+
+
+class _Boom(Exception):
+	pass
+
+
+def _garbage(kind, data):
+	"""an argument parse() cannot take; the ones that are iterables begin with the octets the next good call will bring: a parser that takes them in one by one has
+	consumed a part when it refuses"""
+	def gen_raise():
+		for b in data[:5]:
+			yield b
+		raise _Boom('the source of the data failed')
+	return {'str': data.decode('latin-1'), 'none': None, 'int': len(data), 'float': 1.5, 'object': object(), 'list-str': list(data[:4]) + ['x'], 'list-300': list(data[:3]) + [300],
+		'iter-neg': iter(list(data[:6]) + [-1]), 'gen-raise': gen_raise(), 'dict': {'data': data}}[kind]
+
+
+def _as_type(piece, how, recvbuf):
+	"""the octets of one piece as the type 'how' of argument; returns (argument, probe): probe() says after the call whether the caller's object still holds what it held
+	and then overwrites a mutable one -- a caller reuses its buffer"""
+	if how == 'bytes':
+		return piece, lambda: True
+	if how in ('bytearray', 'list'):
+		a = bytearray(piece) if how == 'bytearray' else list(piece)
+
+		def probe():
+			ok = bytes(a) == piece
+			a[:] = b'\xff' * len(a) if how == 'bytearray' else [0x2e] * len(a)
+			return ok
+		return a, probe
+	if how == 'memoryview':
+		return memoryview(piece), lambda: True
+	if how == 'recvbuf':   # sock.recv_into(buf): ONE buffer for every call, the machine gets a view of its first n octets
+		n = len(piece)
+		recvbuf[:n] = piece
+
+		def probe():
+			ok = bytes(recvbuf[:n]) == piece
+			recvbuf[:n] = b'/../'[:n] if n <= 4 else (b'/../' * (n // 4 + 1))[:n]
+			return ok
+		return memoryview(recvbuf)[:n], probe
+	if how == 'tuple':
+		return tuple(piece), lambda: True
+	if how == 'iter':
+		return iter(piece), lambda: True
+	if how == 'gen':
+		return (b for b in piece), lambda: True
+	if how == 'map':
+		return map(int, piece), lambda: True
+	if how == 'chain':
+		k = len(piece) // 2
+		return itertools.chain(piece[:k], iter(piece[k:])), lambda: True
+	raise ValueError(how)
+
+
+TOUCHES = ['path', 'authority', 'scheme', 'headers', 'all']
+
+
+def _touch(req, act):
+	"""what an application may do with a request it was handed (the object is the application's from then on)"""
+	u = req.uri
+	if act in ('path', 'all'):
+		u.path = '/touched/../by/./the//application'
+	if act in ('authority', 'all'):
+		u.host = 'touched.example'
+		u.port = 99
+	if act in ('scheme', 'all'):
+		u.scheme = 'https' if u.scheme == 'http' else 'http'
+	if act in ('headers', 'all'):
+		try:
+			el = req.headers.element('Host')   # the parsed element, should the library keep one
+			el.host, el.port, el.value = 'touched.example', 99, 'touched.example:99'
+		except Exception:
+			pass
+		req.headers['Host'] = 'touched.example:99'
+		req.headers['X-Touched'] = 'yes'
+
+
+def _run_use(c):
+	with _Knob(c.get('knob')):
+		return _run_use_1(c)
+
+
+def _run_use_1(c):
+	"""requests through one or two machines as the steps say: every piece handed to parse() as the stated argument type, refused calls in between, the application touching
+	what it was handed; per request the observation AT delivery, the same object read again at the END, and what a fresh machine gives for the request alone"""
+	from httoop.status import StatusException
+	Machine, Host = _install()
+	REC.reset()
+	nm = 1 + max([r.get('m', 0) for r in c['reqs']] + [st.get('m', 0) for st in c['steps']])
+	sms = [Machine(*ALL_CFGS[c['cfg']]) for _ in range(nm)]
+	recvbuf = bytearray(1 << 17)
+	delivered = [[] for _ in sms]
+	last = [None] * nm
+	notes = []
+	touch = {int(k): v for k, v in (c.get('touch') or {}).items()}
+	mine = [[i for i, r in enumerate(c['reqs']) if r.get('m', 0) == m] for m in range(nm)]
+	for st in c['steps']:
+		m = st.get('m', 0)
+		if last[m] is not None:
+			continue   # a machine that raised a status is not used again
+		sm = sms[m]
+		if 'bad' in st:
+			try:
+				sm.parse(_garbage(st['bad'], bytes.fromhex(st.get('d', ''))))
+			except StatusException as exc:
+				last[m] = _obs_status(exc)
+			except Exception:
+				pass   # refused, as it must be
+			else:
+				notes.append('accepted %s' % st['bad'])
+			continue
+		piece = bytes.fromhex(st['d'])
+		arg, probe = _as_type(piece, st.get('how', 'bytes'), recvbuf)
+		try:
+			msgs = sm.parse(arg)
+		except StatusException as exc:
+			last[m] = _obs_status(exc)
+			msgs = ()
+		except Exception as exc:
+			last[m] = {'out': 'escape', 'exc': type(exc).__name__, 'msg': str(exc)[:120]}
+			msgs = ()
+		if not probe():
+			notes.append('argument-changed %s' % st.get('how'))
+		for mm in msgs:
+			at = _obs_deliver(mm[0])
+			k = len(delivered[m])
+			delivered[m].append((mm[0], at))
+			if k < len(mine[m]) and mine[m][k] in touch:
+				_touch(mm[0], touch[mine[m][k]])
+	tables = _tables()
+	elems = [None] * len(c['reqs'])
+	for m in range(nm):
+		recs = [r for r in REC.msgs if r.get('sm') == id(sms[m])]
+		for k, i in enumerate(mine[m]):
+			if k < len(delivered[m]):
+				e = dict(delivered[m][k][1])
+				if i not in touch:
+					try:
+						e['end'] = _sig(_obs_deliver(delivered[m][k][0]))
+					except Exception as exc:
+						e['end'] = ['unreadable', type(exc).__name__]
+			elif last[m] is not None and k == len(recs) - 1:
+				e = dict(last[m])
+			elif last[m] is not None and k < len(recs) - 1:
+				e = {'out': 'lost'}
+			elif last[m] is None and k == len(delivered[m]):
+				e = {'out': 'incomplete', 'n': 0}
+			else:
+				e = {'out': 'unreached'}
+			r = recs[k] if k < len(recs) else {'start_ok': False, 'reached': False, 'hostraw': None}
+			e['start_ok'], e['reached'] = r['start_ok'], r['reached']
+			e['hostraw'] = r['hostraw'].hex() if r['hostraw'] is not None else None
+			elems[i] = e
+	for e in elems:
+		if e['out'] == 'status' and e.get('code') == 301 and 'loc' in e:
+			e['follow'] = _follow(Machine, bytes.fromhex(e['loc']), c['cfg'])
+	fresh = []
+	for r in c['reqs']:
+		fc = {'k': 'head', 'line': r['line'], 'hosts': r['hosts'], 'cfg': c['cfg']}
+		if 'raw' in r:
+			fc['raw'] = r['raw']
+		fresh.append(_sig(_run_head_1(fc)))
+	return {'out': 'use', 'elems': elems, 'fresh': fresh, 'tables': tables, 'notes': notes}
+
+
 def observe(c):
 	from httoop.exceptions import InvalidHeader
 	Machine, Host = _install()
@@ -375,6 +601,8 @@ def observe(c):
 		return o
 	if c['k'] == 'seq':
 		return _run_seq(c)
+	if c['k'] == 'use':
+		return _run_use(c)
 	canon = None
 	if 'raw' in c or 'cuts' in c:
 		canon = _sig(_run_head(_canonical_case(c)))   # the same request written the canonical way, in one piece, on its own fresh machine
@@ -388,7 +616,7 @@ def _follow(Machine, loc, cfg):
 	"""what a client gets that follows the redirect: GET <Location> HTTP/1.1 with a plain Host field, same server configuration"""
 	from httoop.status import StatusException
 	REC.reset()
-	sm = Machine(*CFGS[cfg])
+	sm = Machine(*ALL_CFGS[cfg])
 	try:
 		msgs = sm.parse(b'GET ' + loc + b' HTTP/1.1\r\nHost: h\r\n\r\n')
 	except StatusException as exc:
@@ -447,7 +675,9 @@ def coq_case(c, o):
 		return FORCE_BAD
 	if c.get('nocoq'):
 		return None   # header fields other than Host on the wire: Headers.parse and the body hooks are outside this model
-	if c['k'] == 'seq':
+	if c.get('knob'):
+		return None   # URI.encoding other than UTF-8 / a finite MAX_URI_LENGTH: the model is the model of the default configuration (T1 pins both)
+	if c['k'] in ('seq', 'use'):
 		# every request of a sequence on one machine against the model of ONE request head (the model has no state to carry over)
 		out = []
 		for r, e in zip(c['reqs'], o['elems']):
@@ -487,7 +717,7 @@ def coq_case(c, o):
 			obs = '(OStatus %s)' % N(o['code'])
 	else:
 		obs = 'OEscape'
-	ds, dh, dp = CFGS[c['cfg']]
+	ds, dh, dp = _cfg_text(c['cfg'])
 	hostv = 'None' if o['hostraw'] is None else '(Some %s)' % _xh(o['hostraw'])
 	return 'CHead %s %s %s %s %s %s %s' % (X(ds.encode()), X(dh.encode()), _optn(dp), T, _xh(c['line']), hostv, obs)
 
@@ -557,7 +787,7 @@ REDIRECT_CTX = [b'/x/../@', b'/./@', b'//@', b'/@/.', b'/@/..', b'/@//', b'/@/./
 
 
 # ---------------------------------------------------------------- sections L-Q: the six classes of DESIGN section 8 (third wave)
-def wire(line, hosts, cfg, sec, raw=None, what=None, cuts=None, expect=None, nocoq=False, lenient=False):
+def wire(line, hosts, cfg, sec, raw=None, what=None, cuts=None, expect=None, nocoq=False, lenient=False, knob=None):
 	"""a request head of sections L-Q: 'raw' = the octets on the wire when they are not the canonical spelling of (line, hosts); 'cuts' = how the
 	octets are cut into parse() calls; 'expect' = deliver / redirect / refuse where the generator knows it independently of the code"""
 	c = head(line, hosts, cfg)
@@ -574,6 +804,8 @@ def wire(line, hosts, cfg, sec, raw=None, what=None, cuts=None, expect=None, noc
 		c['nocoq'] = True
 	if lenient:
 		c['lenient'] = True
+	if knob is not None:
+		c['knob'] = knob
 	return c
 
 
@@ -655,6 +887,68 @@ RESPELL = [
 ]
 RESPELL_TARGETS = [b'/', b'/a/b?q=1', b'*', b'http://x:81/p', b'HTTPS://X/p', b'/a/../b', b'/%2e%2e/a', b'//a', b'/a%2fb/%C3%A4', b'/e%CC%81', b'ftp://h/', b'http://u@h/', b'/a#f', b'a', b'/x/../%2561', b'http://h', b'/a//', b'/%', b'/?', b'/a:b']
 RESPELL_HOSTS = [b'h:81', b'EXAMPLE.com', b'[::1]:8443', b'1.2.3.4', b'h:0', b'h:65536', b'a b', b'h\xe4', b'=?utf-8?q?e=CC=81?=', b'h;a=b', b'h.']
+
+
+# ---------------------------------------------------------------- sections R-W: classes 10-17 of DESIGN section 8 (fifth wave)
+# S. charsets an application may assign to URI.encoding: those in which an ASCII octet is the ASCII character (the composed form of a URI is ASCII and is
+#    read back in that charset).  NOT in the list, reported: UTF-16 / UTF-32 (every request is answered 400), UTF-7 and the EBCDIC code pages (the Location of a
+#    301 is the composed path decoded in that charset: not the canonical path), and the knob assigned on a SUBCLASS only (HTTP.encoding: the Location is composed
+#    by the base class in UTF-8)
+KNOB_ENCODINGS = ['ISO8859-1', 'iso8859-15', 'cp1252', 'cp1251', 'koi8-r', 'mac-roman', 'cp437', 'gb18030', 'shift_jis', 'euc-jp', 'big5', 'euc-kr', 'ascii', 'latin-1', 'cp1250', 'iso8859-2']
+KNOB_TEXTS = ['é', 'ж', '€', 'üß', '日本', 'ÿ', '¤', 'é.é', '·', '․']
+KNOB_SHAPES = [(('@',), 'deliver'), (('a', '@'), 'deliver'), (('@', ''), 'deliver'), (('@', '@', 'b'), 'deliver'), (('x', '..', '@'), 'redirect'), (('.', '@'), 'redirect'), (('x', '', '@'), 'redirect'),
+	(('@', '..'), 'redirect'), (('@', '.', 'y'), 'redirect')]
+MAXURI_LIMITS = [16, 255, 256, 1024, 4096, 8000, 8192]
+PLAIN_TARGET = re.compile(rb'^(?:http://[a-z]+)?/[A-Za-z0-9/]*$')
+
+# T. Host values for repeated, NON-ADJACENT Host field lines, and the field lines that separate them
+HOST_PAIR_VALUES = [b'h', b'h:81', b'H', b'example.com', b'[::1]:8443', b'1.2.3.4', b'', b'a b']
+HOST_SEPARATORS = [b'Accept: */*\r\n', b'Accept: */*\r\nUser-Agent: x/1\r\nAccept-Language: en\r\n', b'X-Forwarded-Host: evil.example:99\r\n', b'X-Long: a\r\n b\r\n\tc\r\n', b'hostx: g\r\nx-host: g\r\n']
+SEGMENT_LISTS = [list(p) for p in itertools.permutations(['a', 'b', 'c'])] + [['b', 'a', 'b', 'a'], ['a', 'a', 'b'], ['b', 'a', 'a'], ['c', 'b', 'a', 'c', 'b', 'a'], list('hgfedcba'), list('abcdefgh'),
+	['10', '9', '1', '2'], ['B', 'a', 'C', 'b'], ['a', 'A', 'a'], ['z', 'a', 'y', 'b', 'x', 'c'], ['1', '1', '2', '1'], ['aa', 'a', 'aaa', 'a'], ['b', 'c', 'a', 'b', 'c', 'a', 'b']]
+
+# U. methods x request-target forms x versions x Host
+CROSS_METHODS = [b'GET', b'HEAD', b'POST', b'PUT', b'DELETE', b'OPTIONS', b'TRACE', b'PATCH', b'CONNECT', b'PROPFIND', b'PURGE']
+CROSS_TARGETS = [(b'/a/b', 'ok'), (b'/a/../b', 'nc'), (b'/a//b', 'nc'), (b'/a/%2e/b', 'nc'), (b'/a/b/..', 'nc'), (b'http://x:81/a/b', 'ok'), (b'http://x:81/a/./b', 'nc'), (b'https://x/a//b', 'nc'), (b'*', 'star'), (b'x:443', 'auth')]
+# header fields of other features of the machine (framing, connection management, upgrade, expectation, body typing) and the body that goes with them
+FRAMING_SETS = [
+	(b'Content-Length: 3\r\n', b'abc'), (b'Content-Length: 0\r\n', b''), (b'Transfer-Encoding: chunked\r\n', b'3\r\nabc\r\n0\r\n\r\n'), (b'Transfer-Encoding: chunked\r\nTrailer: X-T\r\n', b'1\r\na\r\n0\r\nX-T: v\r\n\r\n'),
+	(b'Expect: 100-continue\r\nContent-Length: 3\r\n', b'abc'), (b'Connection: close\r\n', b''), (b'Connection: keep-alive\r\nKeep-Alive: timeout=5\r\n', b''),
+	(b'Connection: Upgrade, HTTP2-Settings\r\nUpgrade: h2c\r\nHTTP2-Settings: AAMAAABkAAQAAP__\r\n', b''), (b'Upgrade: websocket\r\nConnection: Upgrade\r\nSec-WebSocket-Key: dGhlIHNhbXBsZSBub25jZQ==\r\n', b''),
+	(b'Content-Type: text/plain; charset=utf-16\r\nContent-Length: 4\r\n', b'\xff\xfea\x00'), (b'Content-Type: application/x-www-form-urlencoded\r\nContent-Length: 9\r\n', b'a=/../&b='),
+	(b'Range: bytes=0-1\r\nIf-Range: "x"\r\n', b''), (b'Content-Location: /x/../y\r\nReferer: http://evil.example/../\r\n', b''),
+]
+FRAMING_TARGETS = [(b'/a/../b', 'redirect'), (b'/a//b', 'redirect'), (b'/%2e%2e/a/%2e', 'redirect'), (b'/a/b', 'deliver'), (b'http://x:81/a/./b', 'redirect'), (b'https://x/a/b/', 'deliver')]
+
+# V. text that is white space for one test or another (bytes.strip, str.strip, str.split, str.isspace, \s), NUL, line ends
+RARE_WS = ['\t', '\n', '\x0b', '\x0c', '\r', ' ', '\x00', '\x1c', '\x1d', '\x1e', '\x1f', '\x85', '\xa0', ' ', ' ', ' ', ' ', ' ', ' ', '　', '﻿', '​', '\r\n']
+RARE_SEGS = ['@.', '.@', '@..', '..@', '.@.', '@', 'a@', '@a', '@.@']
+RARE_CTX = [b'/@', b'/x/@/y', b'/@/', b'/x/@', b'/@/../y', b'/./@', b'/x//@']
+RARE_HOST_TEXTS = ['h', 'hh', 'hhh', 'hhhh', 'h.example', 'é', 'éé', 'hé', 'h\n', 'h ', 'h\t', 'h\r\n', 'h\x00', ' h', 'h\x0b', 'h\x0c', '\th', 'h ', 'h ', 'h.', 'h..']
+
+# W. lengths that are 2^k and 2^k +- 1 for k = 9 ... 16, and the block sizes a reader hands the octets on in
+POW2_LENGTHS = sorted(set((1 << k) + d for k in range(9, 17) for d in (-1, 0, 1)))
+BLOCKS = [512, 4096, 8192]
+
+
+def _b64_hosts(rng, want=36):
+	"""host names whose RFC 2047 B form contains '/' or '+' or ends in '=' / '==' (found by search over short names: the value decides, not the shape)"""
+	out, seen = [], set()
+	alphabet = 'h~?ÿþ¿k>.-_é'
+	for n in (1, 2, 3, 4, 5):
+		for tup in itertools.product(alphabet, repeat=n):
+			t = ''.join(tup)
+			if t[0] in '.-' or t in seen:
+				continue
+			enc = base64.b64encode(t.encode('utf-8'))
+			key = (b'/' in enc, b'+' in enc, enc.count(b'='), n)
+			if (b'/' in enc or b'+' in enc) and key not in seen:
+				seen.add(key)
+				seen.add(t)
+				out.append(t)
+			if len(out) >= want:
+				return out
+	return out
 
 
 def _registered_headers():
@@ -1037,6 +1331,237 @@ def gen_cases(rng, tier):
 			t = _rot([b'', b'', b'http://h', b'HTTPS://H:8443'], n) + b'/' + b'/'.join(out)
 			cases.append(wire(b'GET ' + t + b' ' + _rot([b'HTTP/1.1', b'HTTP/1.1', b'HTTP/1.0'], n), [_rot(HOST_GOOD, n)], _rot([0, 1, 2], n), 'Q', expect='deliver',
 				what='path %r spelled with %s' % ('/' + '/'.join(segs), ('as few escapes as possible', 'every octet escaped, lower-case hex', 'a random mix of literal octets and escapes in both hex cases')[style])))
+	# ================================================================ sections R-W: classes 10-17 of DESIGN section 8 (fifth wave); after Q, so that A-Q are unchanged per seed
+	def rq(line, hosts, m=0, cl0=False):
+		r = {'line': bytes(line).hex(), 'hosts': [bytes(h).hex() for h in hosts]}
+		if m:
+			r['m'] = m
+		if cl0:
+			r['raw'] = (line + b'\r\n' + b''.join(b'Host: ' + h + b'\r\n' for h in hosts) + b'Content-Length: 0\r\n\r\n').hex()
+		return r
+
+	def use(reqs, steps, what, cfg=0, touch=None, knob=None):
+		c = {'k': 'use', 'sec': 'R', 'reqs': reqs, 'steps': steps, 'cfg': cfg, 'what': what}
+		if touch:
+			c['touch'] = {str(k): v for k, v in touch.items()}
+		if knob:
+			c['knob'] = knob
+		cases.append(c)
+
+	def cut_steps(data, how, k=None, m=0):
+		cuts = sorted(set(rng.randrange(1, len(data)) for _ in range(rng.randint(0, 2) if k is None else k))) if len(data) > 1 else []
+		return [{'m': m, 'd': p.hex(), 'how': how} for p in _pieces(data, cuts)]
+
+	# R. what callers do around parse().  (11) every type of argument bytearray.extend takes -- bytes, bytearray, memoryview, a view of ONE reused receive buffer, list, tuple,
+	#    one-shot iterators (iter, generator, map, chain) -- gives what bytes give; (10) the caller's object is not changed and may be overwritten right after the call,
+	#    a request that was delivered is not changed by what the machine parses later, what the application does to it does not reach later requests, two machines do
+	#    not share anything; (12) a call that is refused (TypeError / ValueError / the caller's own exception out of its generator) leaves the machine as it was
+	short = [c for c in older if 'raw' not in c and len(c['line']) // 2 + sum(len(h) // 2 for h in c['hosts']) < 400]
+	n = 0
+	for _ in range(420 if big else 42):
+		c0 = rng.choice(short)
+		data = request_bytes(c0)
+		for how in FEEDS:
+			n += 1
+			use([{'line': c0['line'], 'hosts': c0['hosts']}], cut_steps(data, how), 'one head, every piece handed to parse() as %s' % how, c0['cfg'])
+			if how not in ('bytes', 'recvbuf'):
+				cases[-1]['nocoq'] = True   # the same head ten times: the model is asked twice, the oracle compares all ten with the fresh machine
+	for _ in range(60 if big else 8):
+		reqs = [rng.choice(seq_pool) for _ in range(rng.randint(2, 3))]
+		if rng.random() < 0.3:
+			reqs[-1] = rng.choice(SEQ_BAD)
+		rs = [rq(l, h, cl0=True) for l, h in reqs]
+		data = b''.join(wire_bytes(r) for r in rs)
+		for how in FEEDS:
+			use(rs, cut_steps(data, how, k=len(rs) + 1), '%d requests, pieces across request boundaries handed to parse() as %s' % (len(rs), how), rng.randrange(3))
+	refuse_pairs = [(SEQ_GOOD[0], SEQ_GOOD[1]), (SEQ_GOOD[7], SEQ_GOOD[2]), (SEQ_GOOD[10], SEQ_BAD[0]), (SEQ_GOOD[12], SEQ_GOOD[14]), (SEQ_GOOD[4], SEQ_BAD[2])]
+	for g in GARBAGE:
+		for (x, y) in refuse_pairs:
+			rs = [rq(*x), rq(*y)]
+			w0, w1 = wire_bytes(rs[0]), wire_bytes(rs[1])
+			k = rng.randrange(1, len(w0))
+			use(rs, [{'bad': g, 'd': w0.hex()}, {'d': w0.hex()}, {'d': w1.hex()}], 'a call parse(<%s>) refused BEFORE the first request' % g, _rot([0, 1, 2], n))
+			use(rs, [{'d': w0[:k].hex()}, {'bad': g, 'd': w0[k:].hex()}, {'d': w0[k:].hex()}, {'d': w1.hex()}], 'a call parse(<%s>) refused in the MIDDLE of the first request head (after %d octets)' % (g, k), _rot([0, 1, 2], n))
+			use(rs, [{'d': w0.hex()}, {'bad': g, 'd': w1.hex()}, {'bad': g, 'd': w1.hex()}, {'d': w1.hex()}], 'two calls parse(<%s>) refused BETWEEN two requests' % g, _rot([0, 1, 2], n))
+			n += 1
+	touch_pairs = [(a, a) for a in SEQ_GOOD] + list(SEQ_RELATED) + [(b, a) for a, b in SEQ_RELATED]
+	for j, (x, y) in enumerate(touch_pairs):
+		for act in (TOUCHES if (big or j % 6 == 0) else [_rot(TOUCHES, j), _rot(TOUCHES, j + 2)]):
+			n += 1
+			rs = [rq(*x), rq(*y), rq(*x)]
+			use(rs, [{'d': wire_bytes(r).hex()} for r in rs], 'the application changes (%s) the request it was handed before the next one is parsed' % act, _rot([0, 1, 2], n), touch={0: act, 1: act})
+	inter = [(rng.choice(SEQ_GOOD), rng.choice(SEQ_GOOD + SEQ_BAD)) for _ in range(600 if big else 110)] + list(SEQ_RELATED) + [(b, a) for a, b in SEQ_RELATED]
+	for (x, y) in inter:
+		n += 1
+		rs = [rq(*x), rq(*y, m=1), rq(*x, m=1), rq(*y)]
+		wx, wy = wire_bytes(rs[0]), wire_bytes(rs[1])
+		k = rng.randrange(1, len(wx))
+		use(rs, [{'m': 0, 'd': wx[:k].hex()}, {'m': 1, 'd': wy.hex()}, {'m': 0, 'd': wx[k:].hex()}, {'m': 1, 'd': wx.hex()}, {'m': 0, 'd': wy.hex()}],
+			'TWO machines of one configuration used in turns (the first gets %d octets of its request, the second a whole request, the first the rest)' % k, _rot([0, 1, 2], n))
+
+	# S. configuration knobs (class 13).  URI.encoding assigned on the class(es) x non-ASCII segments escaped in that charset: the delivered path is the text in THAT charset,
+	#    the Location is written in it and the redirect, followed, arrives; MAX_URI_LENGTH at, below and above the limit; constructor arguments
+	n = 0
+	for enc in KNOB_ENCODINGS:
+		texts = []
+		for t in KNOB_TEXTS:
+			try:
+				if t.encode(enc).decode(enc) == t:
+					texts.append(t)
+			except UnicodeError:
+				pass
+		texts = texts[:4 if big else 3] or ['a']
+		for t in texts:
+			for segs, exp in KNOB_SHAPES:
+				n += 1
+				style = n % 3
+				out = []
+				for sg in segs:
+					raw_ = (t if sg == '@' else sg).encode(enc)
+					if sg in ('.', '..', '') and style != 1:
+						out.append(raw_)
+					else:
+						out.append(b''.join(bytes([b_]) if (style == 0 and (bytes([b_]).isalnum())) else (b'%%%02X' if (style + b_) % 2 else b'%%%02x') % b_ for b_ in raw_))
+				target = _rot([b'', b'', b'http://h', b'HTTPS://H:8443'], n) + b'/' + b'/'.join(out)
+				cases.append(wire(b'GET ' + target + b' ' + _rot([b'HTTP/1.1', b'HTTP/1.1', b'HTTP/1.0'], n), [_rot(HOST_GOOD, n)], _rot([0, 1, 2], n), 'S', expect=exp,
+					knob={'enc': enc, 'on': _rot([['URI'], ['URI', 'HTTP'], ['URI', 'HTTP', 'HTTPS']], n)}, what='URI.encoding = %r, path segments %r' % (enc, [t if sg == '@' else sg for sg in segs])))
+		for target in (b'/%FF', b'/%80/%81', b'/x/../%FF%FE', b'/%C3%A9', b'/%E2%80%A4%E2%80%A4/x', b'/%2e%00%2e%00/x', b'/a/\xe9'):
+			n += 1
+			cases.append(wire(b'GET ' + target + b' HTTP/1.1', [b'h'], 0, 'S', knob={'enc': enc, 'on': ['URI']}, what='URI.encoding = %r, octets that may mean nothing in it' % enc))
+	for lim in MAXURI_LIMITS:
+		for L_ in (lim - 1, lim, lim + 1):
+			for shape, exp in ((b'/' + b'a' * (L_ - 1), 'deliver'), (b'/a' * (L_ // 2) + b'/' * (L_ % 2), 'deliver'), (b'http://h/' + b'a' * (L_ - 9), 'deliver'), (b'/x/../' + b'a' * (L_ - 6), 'redirect')):
+				if len(shape) != L_:
+					continue
+				cases.append(wire(b'GET ' + shape + b' HTTP/1.1', [b'h:81'], 0, 'S', expect=exp if L_ <= lim else None, knob={'maxuri': lim}, what='MAX_URI_LENGTH = %d, target of %d octets' % (lim, L_)))
+	for ci in range(len(CFGS), len(ALL_CFGS)):
+		for line, hosts, exp in ((b'GET /a HTTP/1.0', [], 'deliver'), (b'GET /a/../b HTTP/1.0', [], 'redirect'), (b'POST /a?q=1 HTTP/1.0', [], 'deliver'), (b'GET /%C3%A9 HTTP/1.0', [], 'deliver'), (b'OPTIONS * HTTP/1.0', [], 'deliver'),
+				(b'CONNECT x:443 HTTP/1.0', [], 'deliver'), (b'GET /a HTTP/1.1', [b'h:81'], 'deliver'), (b'GET /a HTTP/1.0', [b'H'], 'deliver'), (b'GET https://x/p HTTP/1.1', [b'y'], 'deliver'), (b'GET http://x/p HTTP/1.1', [b'y:443'], 'deliver'),
+				(b'CONNECT x:443 HTTP/1.1', [b'x:443'], 'deliver'), (b'GET /a HTTP/1.1', [], 'refuse'), (b'GET //a HTTP/1.0', [], 'refuse')):
+			cases.append(wire(line, hosts, ci, 'S', expect=exp, what='machine constructed with %r' % (ALL_CFGS[ci],)))
+
+	# T. order (class 14).  Host field lines that are NOT adjacent, in both orders, whole and in pieces: never delivered, and the machine has read the values in wire order;
+	#    path segments that are unsorted, repeated, reverse-sorted stay in their order, and a dot-dot segment removes the segment before IT
+	n = 0
+	for a in HOST_PAIR_VALUES:
+		for b in HOST_PAIR_VALUES:
+			n += 1
+			line = _rot([b'GET /a HTTP/1.1', b'GET http://x:81/p HTTP/1.1', b'GET /a HTTP/1.0', b'OPTIONS * HTTP/1.1'], n)
+			sep = _rot(HOST_SEPARATORS, n)
+			raw = line + b'\r\n' + _rot([b'', b'Accept: */*\r\n'], n // 2) + b'Host: ' + a + b'\r\n' + sep + _rot([b'Host', b'host', b'HOST'], n) + b': ' + b + b'\r\n' + _rot([b'', b'User-Agent: x/1\r\n'], n // 3) + b'\r\n'
+			what = 'Host field lines %r and %r separated by %r' % (a, b, sep)
+			cases.append(wire(line, [a, b], 0, 'T', raw=raw, expect='refuse', what=what))
+			if n % 2 or big:
+				ends = [m_.end() for m_ in re.finditer(rb'\r\n', raw)][:-1]
+				cases.append(wire(line, [a, b], 0, 'T', raw=raw, expect='refuse', cuts=_rot(['octet', ends, [ends[-2]], [raw.index(sep) + 2]], n // 2), what=what + ', arriving in pieces'))
+	for hosts in ([b'h', b'g', b'h'], [b'h', b'h', b'h'], [b'a', b'b', b'c'], [b'c', b'b', b'a']):
+		raw = b'GET /a HTTP/1.1\r\n' + b'X-A: 1\r\n'.join(b'Host: ' + h + b'\r\n' for h in hosts) + b'\r\n'
+		for cuts in (None, 'octet'):
+			cases.append(wire(b'GET /a HTTP/1.1', hosts, 0, 'T', raw=raw, expect='refuse', cuts=cuts, what='three Host field lines %r with other fields between them' % (hosts,)))
+	n = 0
+	for segs in SEGMENT_LISTS + [[rng.choice(['a', 'b', 'c', 'd', 'A', '1', '2', '10', 'ab', 'ba']) for _ in range(rng.randint(3, 9))] for _ in range(40 if big else 6)]:
+		bs = [sg.encode('ascii') for sg in segs]
+		k = 1 + n % (len(bs) - 1)
+		shapes = [(b'/' + b'/'.join(bs), 'deliver'), (b'/' + b'/'.join(bs) + b'/', 'deliver'), (b'/' + b'/'.join(bs[:k] + [b'..'] + bs[k:]), 'redirect'), (b'/' + b'/'.join(bs[:k] + [b'.'] + bs[k:]), 'redirect'),
+			(b'/' + b'/'.join(bs[:k] + [b''] + bs[k:]), 'redirect'), (b'/' + b'/'.join(bs[:k] + [b'%2e%2E'] + bs[k:] + [b'..']), 'redirect'), (b'/' + b'/'.join(bs + [b'..'] * (len(bs) - 1)), 'redirect'),
+			(b'/' + b'/'.join([x for sg in bs for x in (sg, b'.')]), 'redirect'), (b'/' + b'/'.join(bs[:k] + [b'..', b'..'] + bs[k:]), 'redirect' if k >= 2 else None)]
+		for t, exp in shapes:
+			n += 1
+			cases.append(wire(_rot([b'GET', b'GET', b'POST', b'HEAD'], n) + b' ' + _rot([b'', b'', b'http://h', b'HTTPS://H:8443'], n) + t + b' ' + _rot([b'HTTP/1.1', b'HTTP/1.1', b'HTTP/1.0'], n), [_rot(HOST_GOOD, n)], _rot([0, 1, 2], n), 'T',
+				expect=exp, what='path segments in the order %r' % (segs,)))
+
+	# U. interaction of features (class 15): every method x every form of target x both versions x Host absent / present / invalid / twice; the head arriving line by line;
+	#    the fields of the machine's other features (framing, body, connection, upgrade, expectation) next to a path that must be redirected
+	n = 0
+	for m_ in CROSS_METHODS:
+		for t, kind in CROSS_TARGETS:
+			for ver in (b'HTTP/1.1', b'HTTP/1.0'):
+				for hosts in ([], [b'h:82']) + (([b'a b'], [b'h', b'g']) if big else (_rot([[b'a b'], [b'h', b'g'], [b'H.example:8080'], [b'[::1]']], n),)):
+					n += 1
+					exp = None
+					one_good = len(hosts) == 1 and hosts[0] != b'a b'
+					if len(hosts) == 2 or hosts == [b'a b'] or (not hosts and ver == b'HTTP/1.1'):
+						exp = 'refuse'
+					elif m_ != b'CONNECT' and kind in ('ok', 'nc'):
+						exp = 'deliver' if kind == 'ok' else 'redirect'
+					elif m_ == b'CONNECT' and kind == 'auth':
+						exp = 'deliver'
+					elif m_ == b'OPTIONS' and kind == 'star':
+						exp = 'deliver'
+					elif m_ == b'CONNECT' and kind in ('ok', 'nc'):
+						exp = 'refuse'
+					c = wire(m_ + b' ' + t + b' ' + ver, hosts, _rot([0, 0, 1, 2], n), 'U', expect=exp, what='method %s x target %s x %s x Host %r' % (m_.decode(), t.decode(), ver.decode(), hosts))
+					cases.append(c)
+					if n % 4 == 0 or big:
+						data = request_bytes(c)
+						ends = [x.end() for x in re.finditer(rb'\r\n', data)][:-1]
+						cases.append(dict(c, cuts=ends, what=c['what'] + ', one parse() call per line'))
+	n = 0
+	for fields, body in FRAMING_SETS:
+		for t, exp in FRAMING_TARGETS:
+			for first in (True, False):
+				n += 1
+				if fields.startswith(b'Transfer-Encoding') or n % 3:
+					ver = b'HTTP/1.1'
+				else:
+					ver = b'HTTP/1.0'
+				line = _rot([b'POST', b'PUT'], n) + b' ' + t + b' ' + ver
+				hv = _rot([b'h:81', b'EXAMPLE.com', b'[::1]:8443'], n)
+				raw = line + b'\r\n' + (fields + b'Host: ' + hv + b'\r\n' if first else b'Host: ' + hv + b'\r\n' + fields) + b'\r\n' + body
+				cases.append(wire(line, [hv], _rot([0, 1, 2], n), 'U', raw=raw, expect=exp, nocoq=True, cuts=None if n % 4 else 'octet',
+					what='fields %r %s Host, body %r' % (fields, 'before' if first else 'after', body)))
+
+	# V. values that are rare (class 16): every character some test takes for white space, NUL and line ends at the edges of a segment and around dots -- '. ' is not a dot
+	#    segment, ' ' is not an empty one, neither may be trimmed; Host words whose decoded text ends in such a character, whose B form has no / one / two '=' or contains '/' '+'
+	n = 0
+	for w in RARE_WS:
+		for sgt in RARE_SEGS:
+			seg = sgt.replace('@', w)
+			enc = b''.join(bytes([b_]) if bytes([b_]) in (b'.', b'a') else (b'%%%02X' if n % 2 else b'%%%02x') % b_ for b_ in seg.encode('utf-8'))
+			for ctx in (RARE_CTX if big else [_rot(RARE_CTX, n), _rot(RARE_CTX, n + 2), _rot(RARE_CTX[4:], n)]):
+				n += 1
+				t = ctx.replace(b'@', enc)
+				dec = decode_path(t)
+				exp = 'deliver' if canonical(dec) == dec else 'redirect'
+				cases.append(wire(b'GET ' + _rot([b'', b'', b'', b'http://h'], n) + t + b' ' + _rot([b'HTTP/1.1', b'HTTP/1.1', b'HTTP/1.0'], n), [_rot(HOST_GOOD, n)], _rot([0, 1, 2], n), 'V', expect=exp,
+					what='segment %r (%s) in %s' % (seg, _cps(seg), ctx.decode())))
+	for t in RARE_HOST_TEXTS + _b64_hosts(rng):
+		for port in (b'', b':81'):
+			n += 1
+			bword = b'=?utf-8?b?' + base64.b64encode(t.encode('utf-8')) + b'?=' + port
+			qword = b'=?UTF-8?Q?' + b''.join(bytes([b_]) if bytes([b_]).isalnum() else b'=%02X' % b_ for b_ in t.encode('utf-8')) + b'?=' + port
+			for hv in (bword, qword):
+				cases.append(wire(_rot([b'GET / HTTP/1.1', b'GET http://x:81/p HTTP/1.1', b'GET /a HTTP/1.0', b'OPTIONS * HTTP/1.1'], n), [hv], _rot([0, 1, 2], n), 'V', what='Host word for the text %r' % (t,)))
+
+	# W. boundary arithmetic (class 17): 2^k and 2^k +- 1 octets (k = 9 ... 16) for the target, one segment, the escapes of a segment at every alignment, the number of segments,
+	#    the Host value, the whole request line and the whole head -- in one piece and in blocks of 512 / 4096 / 8192 octets (a block ends ON, one before, one after the end)
+	n = 0
+	for L_ in POW2_LENGTHS:
+		hv = [_rot(HOST_GOOD, n)]
+		shapes = [
+			(b'/' + b'a' * (L_ - 1), hv, 'deliver', 'one segment, target of %d octets' % L_, True),
+			(b'/' + b'b' * (L_ % 3) + b'%61' * ((L_ - 1 - L_ % 3) // 3) + b'c' * ((L_ - 1 - L_ % 3) % 3), hv, 'deliver', 'escaped segment, target of %d octets' % L_, False),
+			(b'/b' + b'%C3%A9' * ((L_ - 2) // 6) + b'c' * ((L_ - 2) % 6), hv, 'deliver', 'escaped non-ASCII segment, target of %d octets' % L_, False),
+			(b'/' + b'a' * (L_ - 6) + b'/../b', hv, 'redirect', 'dot-dot after a long segment, target of %d octets' % L_, True),
+			(b'/./' + b'a' * (L_ - 3), hv, 'redirect', 'dot segment before a long segment, target of %d octets' % L_, False),
+			(b'http://h/' + b'a' * (L_ - 9), hv, 'deliver', 'absolute-form, target of %d octets' % L_, False),
+			(b'/' + b'a' * (L_ - 14), hv, 'deliver', 'request line of %d octets' % L_, True),
+			(b'/' + b'a' * (L_ - 18 - len(b'Host: ' + hv[0] + b'\r\n')), hv, 'deliver', 'request head of %d octets' % L_, True),
+			(b'/' + b'a' * (L_ - 1) + b'/%2e%2e/' + b'b' * (L_ - 1), hv, 'redirect', 'two segments of %d octets around a dot-dot segment' % (L_ - 1), False),
+		]
+		if L_ <= 16385:
+			shapes.append((b'/a' * (L_ // 2) + b'/' * (L_ % 2), hv, 'deliver', '%d segments, target of %d octets' % (L_ // 2, L_), False))
+			shapes.append((b'/a' * (L_ // 2) + b'/..' * (L_ // 2 - 1) + b'/' * (L_ % 2), hv, 'redirect', '%d segments and one dot-dot segment less' % (L_ // 2), False))
+			shapes.append((b'/', [b'a' * L_], 'deliver', 'Host value of %d octets' % L_, True))
+			shapes.append((b'/', [(b'a' * 63 + b'.') * (L_ // 64) + (b'b' * (L_ % 64) or b'b') + b':8080'], 'deliver', 'Host of %d labels of 63 octets with a port' % (L_ // 64), False))
+		for t, hosts, exp, what, blocks in shapes:
+			n += 1
+			c = wire(b'GET ' + t + b' HTTP/1.1', hosts, 0, 'W', expect=exp, what=what)
+			cases.append(c)
+			if blocks:
+				for bsz in (BLOCKS if big else [_rot(BLOCKS, n), _rot(BLOCKS, n + 1)]):
+					if bsz < len(request_bytes(c)):
+						cases.append(dict(c, cuts={'block': bsz}, what=what + ', arriving in blocks of %d octets' % bsz))
 	return cases
 
 
@@ -1056,12 +1581,12 @@ def path_ok(p):
 	return all(s != '' for s in segs[1:-1])
 
 
-def decode_path(raw):
-	"""segment-wise percent-decoding of a wire path, an encoded slash kept distinct; None = not UTF-8"""
+def decode_path(raw, enc='utf-8'):
+	"""segment-wise percent-decoding of a wire path, an encoded slash kept distinct; None = not UTF-8 (not text in the charset the application configured)"""
 	out = []
 	for seg in raw.split(b'/'):
 		try:
-			out.append(urllib.parse.unquote_to_bytes(seg).decode('utf-8').replace('/', '%2f'))
+			out.append(urllib.parse.unquote_to_bytes(seg).decode(enc).replace('/', '%2f'))
 		except UnicodeDecodeError:
 			return None
 	return '/'.join(out)
@@ -1101,9 +1626,9 @@ def canonical(decoded):
 PCHAR_SAFE = "!$&'()*+,;=:@"   # RFC 3986 pchar = unreserved / pct-encoded / sub-delims / ":" / "@"  (urllib keeps the unreserved characters)
 
 
-def encode_path(text):
+def encode_path(text, enc='utf-8'):
 	"""the decoded path text (an escaped slash is spelled '%2f' in it, as in URI.path) percent-encoded segment by segment: RFC 3986 3.3 / 2.1"""
-	return '/'.join(urllib.parse.quote(seg, safe=PCHAR_SAFE) for seg in text.split('/')).encode('ascii')
+	return '/'.join(urllib.parse.quote(seg.encode(enc), safe=PCHAR_SAFE) for seg in text.split('/')).encode('ascii')
 
 
 def _show_follow(f):
@@ -1144,10 +1669,18 @@ def _oracle_head(c, o):
 	m = REQLINE.match(line)
 	method, target, version = m.groups() if m else (None, None, None)
 	parts = RFC3986.match((b'//' + target) if method == b'CONNECT' else target) if target is not None else None
-	decoded = decode_path(parts.group(3)) if parts else None
-	cfg = CFGS[c['cfg']]
+	knob = c.get('knob') or {}
+	enc = knob.get('enc', 'utf-8')
+	decoded = decode_path(parts.group(3), enc) if parts else None
+	cfg = _cfg_text(c['cfg'])
 	wire_scheme = parts.group(1) if parts is not None and method != b'CONNECT' else None   # RFC 3986 appendix B reading of the wire target
 	if o['out'] == 'status':
+		if o['code'] == 414 and 'maxuri' in knob:
+			# the application set a limit: 414 is the limit's answer.  Stated only where the length the limit is compared with is known independently: a target of
+			# letters, digits and slashes is composed as it was received, and the whole head arrived in one call
+			if target is not None and PLAIN_TARGET.match(target) and len(target) <= knob['maxuri'] and 'cuts' not in c:
+				return 'limit: MAX_URI_LENGTH = %d, the target has %d octets and is answered 414' % (knob['maxuri'], len(target))
+			return None
 		if o['code'] not in (301, 400, 505):
 			return 'status: unexpected status %d for a request head' % (o['code'],)
 		if o['code'] == 505:
@@ -1164,12 +1697,12 @@ def _oracle_head(c, o):
 			if want == decoded:
 				return 'redirect-canonical: 301 although the decoded path %r is canonical' % (decoded,)
 			lp = RFC3986.match(loc)
-			got = decode_path(lp.group(3)) if lp and not lp.group(1) and lp.group(2) is None and lp.group(4) is None and lp.group(5) is None else None
+			got = decode_path(lp.group(3), enc) if lp and not lp.group(1) and lp.group(2) is None and lp.group(4) is None and lp.group(5) is None else None
 			if want.startswith('/') and not loc.startswith(b'/') and got is not None and '/' + got == want:
 				return 'redirect-not-rooted: Location %r, canonical path %r' % (loc, want)
 			if not path_ok(want):
 				return 'redirect-target: the canonical form %r of the decoded path %r is not a sanitised path' % (want, decoded)
-			want_loc = encode_path(want)
+			want_loc = encode_path(want, enc)
 			f = o.get('follow') or {'out': 'missing'}
 			followed = f['out'] == 'deliver' and bytes.fromhex(f['path']).decode('utf-8') == want and not f['query']
 			if any(ord(ch) < 0x10 for ch in want) and (loc != want_loc or not followed):
@@ -1286,6 +1819,11 @@ def _oracle_respelled(c, o):
 		got = bytes.fromhex(o['hostraw']) if o['hostraw'] is not None else None
 		if got != want:
 			return 'host-field: the wire carries the Host value %r (%s), the machine read %r' % (want, c.get('what', ''), got)
+	if c.get('sec') in ('T', 'U') and o.get('reached') and len(c['hosts']) >= 2 and not any(ch in bytes.fromhex(h) for h in c['hosts'] for ch in b',"'):
+		want = [bytes.fromhex(h).strip(b' \t') for h in c['hosts']]
+		got = [v.strip(b' \t') for v in bytes.fromhex(o['hostraw']).split(b',')] if o['hostraw'] is not None else None
+		if got != want:   # RFC 7230 3.2.2: field lines of one name are combined in the order they were received
+			return 'host-order: the wire carries the Host values %r in this order (%s), the machine read %r' % (want, c.get('what', ''), got)
 	exp = c.get('expect')
 	if exp == 'deliver' and o['out'] != 'deliver':
 		return 'refused: a well-formed request (%s) is not delivered: %s' % (c.get('what', ''), _show_sig(_sig(o)))
@@ -1309,22 +1847,33 @@ def _show_sig(g):
 def oracle(c, o):
 	if 'harness_exception' in o:
 		return 'harness exception %s' % (o['harness_exception'],)
-	if c['k'] == 'seq':
+	if c['k'] in ('seq', 'use'):
 		n = len(c['reqs'])
+		how = c.get('mode') or c.get('what')
+		if c['k'] == 'use':
+			for note in o.get('notes', []):
+				if note.startswith('argument-changed'):
+					return 'argument: parse() changed the object it was given (%s): %s' % (note, how)
 		# 1. statefulness: every request of the sequence gives on the used machine what it gives alone on a fresh one
 		for i, (r, e) in enumerate(zip(c['reqs'], o['elems'])):
 			if e['out'] in ('lost', 'unreached'):
 				continue
 			if _sig(e) != o['fresh'][i]:
 				return 'stateful: request %d of %d sent to ONE machine (%s) %r gives %s, the same request alone on a fresh machine gives %s; before it: %s' % (
-					i + 1, n, c.get('mode'), bytes.fromhex(r['line']), _show_sig(_sig(e)), _show_sig(o['fresh'][i]), [bytes.fromhex(q['line']) for q in c['reqs'][:i]])
+					i + 1, n, how, bytes.fromhex(r['line']), _show_sig(_sig(e)), _show_sig(o['fresh'][i]), [bytes.fromhex(q['line']) for q in c['reqs'][:i]])
+			if 'end' in e and e['end'] != _sig(e):
+				return 'aliasing: request %d of %d (%s) %r was delivered as %s; after the machine(s) went on parsing the SAME object reads %s' % (
+					i + 1, n, how, bytes.fromhex(r['line']), _show_sig(_sig(e)), _show_sig(e['end']) if e['end'][0] != 'unreadable' else e['end'])
 		# 2. the property itself on every request the used machine delivered or refused
 		for i, (r, e) in enumerate(zip(c['reqs'], o['elems'])):
 			if e['out'] in ('lost', 'unreached'):
 				continue
-			f = _oracle_head(dict(r, k='head', cfg=c['cfg']), e)
+			hc = dict(r, k='head', cfg=c['cfg'])
+			if 'knob' in c:
+				hc['knob'] = c['knob']
+			f = _oracle_head(hc, e)
 			if f:
-				return '%s [request %d of %d sent to one machine, %s]' % (f, i + 1, n, c.get('mode'))
+				return '%s [request %d of %d sent to one machine, %s]' % (f, i + 1, n, how)
 		return None
 	f = _oracle_head(c, o)
 	if f or c['k'] != 'head':
@@ -1347,6 +1896,8 @@ def classify(c, o, failure):
 def nontrivial(c, o):
 	if c['k'] == 'host':
 		return ('host', o['out'], c['v'])
+	if c['k'] == 'use':
+		return ('use', c.get('what'), tuple((e.get('out'), e.get('code')) for e in o.get('elems', [])), tuple(r['line'] for r in c['reqs']), c['cfg'])
 	if c['k'] == 'seq':
 		return ('seq', c.get('mode'), tuple((e.get('out'), e.get('code')) for e in o.get('elems', [])), tuple(r['line'] for r in c['reqs']), c['cfg'])
 	line = bytes.fromhex(c['line'])
